@@ -52,7 +52,7 @@ func NewKeystore(store datastore.Datastore) (*Keystore, error) {
 
 // HasKey checks whether a given key ID exist in the keystore.
 func (k *Keystore) HasKey(ctx context.Context, id string) (bool, error) {
-	storedKey, ok := k.cache.Peek(id)
+	_, ok := k.cache.Peek(id)
 
 	if ok == false {
 		value, err := k.store.Get(ctx, datastore.NewKey(id))
@@ -60,12 +60,10 @@ func (k *Keystore) HasKey(ctx context.Context, id string) (bool, error) {
 			return false, errmsg.ErrKeyNotInKeystore.Wrap(err)
 		}
 
-		if storedKey != nil {
-			k.cache.Add(id, base64.StdEncoding.EncodeToString(value))
-		}
+		k.cache.Add(id, base64.StdEncoding.EncodeToString(value))
 	}
 
-	return storedKey != nil, nil
+	return true, nil
 }
 
 // CreateKey creates a new key in the key store.
